@@ -164,6 +164,7 @@ def step (st : St) (line : String) : St × String :=
       (match Rfc.parse (sdOf st1) d with
        | none => (pushSlot st1 none, "ptr 0")
        | some jv =>
+         if !jv.parseable then (pushSlot st1 none, "ptr 0") else
          let base := st1.heap.cells.length
          let root := (buildOps jv base).2.1
          let (h, _) := st1.heap.run true st1.cyc (loadOps jv base)
